@@ -122,11 +122,26 @@ Do(ref, a) ==
       [] a.op = "clear" -> [ref |-> [c \in DOMAIN ref |-> <<>>], err |-> 0, need |-> 0]
       [] OTHER -> [ref |-> ref, err |-> 0, need |-> 0]
 
+\* Program mode: a string literal of a stored program line is not copied to string space; a variable assigned such
+\* a literal (directly, or by LET from a variable that holds one) points into the program text until LSET / RSET /
+\* MID$= modify it (the value is then copied to string space first).  code = the cells whose value lives in the
+\* program text; they do not count as live string bytes.  (prog: the statement is a stored program line.)
+IsCodeExpr(code, e, prog) == (e.k = "lit" /\ prog /\ Len(e.v) > 0) \/ (e.k = "var" /\ e.c \in code)
+CodeAfter(code, ref, a, prog) ==
+    CASE a.op = "let" -> IF IsCodeExpr(code, a.e, prog) THEN code \cup {a.c} ELSE code \ {a.c}
+      [] a.op \in {"lset", "rset"} -> code \ {a.c}
+      [] a.op = "midset" -> LET r == Eval(ref, a.e) IN
+                            IF r.ok /\ Min(Min(a.n, Len(r.v)), Len(ref[a.c]) - (a.s - 1)) > 0 THEN code \ {a.c} ELSE code
+      [] a.op = "swap"  -> (code \ {a.c, a.d}) \cup (IF a.c \in code THEN {a.d} ELSE {}) \cup (IF a.d \in code THEN {a.c} ELSE {})
+      [] a.op = "erase" -> code \ Arrays[a.arr]
+      [] a.op = "clear" -> {}
+      [] OTHER -> code
+
 \* the FRE equation: k = top of string space, ae = end of the array area (both BASIC-visible)
-FreeAfterGC(k, ae, ref) == k - ae - Live(ref)
+FreeAfterGC(k, ae, ref, code) == k - ae - SumLen(ref, (DOMAIN ref) \ code)
 \* Out of string space / Out of memory is acceptable only if the free space does not exceed what the statement needs
 \* (strictly more is needed than is used: check_free keeps one byte) plus the variable-area bytes it allocated
-MayRunOut(k, ae, ref, need, alloc) == FreeAfterGC(k, ae, ref) <= need + alloc
+MayRunOut(k, ae, ref, code, need, alloc) == FreeAfterGC(k, ae, ref, code) <= need + alloc
 
 -----------------------------------------------------------------------------
 (* ------------------------ implementation-shaped layer ------------------------ *)
